@@ -13,8 +13,14 @@
 (* Property C16 (session part): after every expand()/parse() the path is    *)
 (* what it was before; every recorded message carries the documented keys   *)
 (* with the page title and section current at emission; start_page empties  *)
-(* the lists.  Beyond the statement (DRIFT class in the harness): the       *)
-(* subsection stamp, the cookie table and the strip-marker numbering.       *)
+(* the lists.  The declarative reference of the message clause is the       *)
+(* variable `pos`: the section / subsection that are current according to   *)
+(* the DOCUMENTED meaning of the calls (start_page: none; start_section(s):  *)
+(* section s and no subsection - whatever s is, also when s is the title of  *)
+(* the current section or None again; start_subsection(u): subsection u),    *)
+(* kept apart from the fields `section` / `subsection` the code-like actions *)
+(* assign and the messages are stamped from.  Beyond the statement (DRIFT    *)
+(* class in the harness): the cookie table and the strip-marker numbering.   *)
 EXTENDS Naturals, Sequences, FiniteSets, TLC
 
 CONSTANTS Dev      \* names of the deviations from the ideal that are switched on
@@ -72,6 +78,9 @@ SegOps ==
                  CallLoop \o <<Pop, Pop>>,
     nosuch   |-> <<Save("T:nosuch")>> \o TName \o <<Push("Template:nosuch"), Pop>>,
     arg1     |-> <<Save("A:1"), Push("ARGVAL-NO-TEMPLATE"), Push("ARG-NAME"), Pop, Pop>>,
+    \* {{{1|a|b}}}: the "too many args" debug is recorded before the argument name is expanded
+    toomany  |-> <<Save("A:1|a|b"), Push("ARGVAL-NO-TEMPLATE"), Em("debug", "toomany", "core/1021", ""),
+                   Push("ARG-NAME"), Pop, Push("ARG-DEFVAL"), Pop, Pop>>,
     \* ---- parse() texts (parser.py records debugs while the path is just the page title)
     p_plain   |-> <<>>,
     p_pre     |-> <<Em("debug", "pre", "parser/1308", "")>>,
@@ -82,7 +91,7 @@ SegOps ==
     \* parse("{{loop}}</pre>", expand_all=True): expansion first, then the parser
     p_looppre |-> <<Save("T:loop")>> \o CallLoop \o <<Save("L::Template:loop"), Em("debug", "pre", "parser/1308", "")>> ]
 
-ExpandSegs == {"plain", "loop", "badfn", "argbadfn", "argloop", "pingpong", "t1a", "t2z", "ifloop", "nosuch", "arg1"}
+ExpandSegs == {"plain", "loop", "badfn", "argbadfn", "argloop", "pingpong", "t1a", "t2z", "ifloop", "nosuch", "arg1", "toomany"}
 ParseSegs == {"p_plain", "p_pre", "p_b", "p_heading", "p_section", "p_t1a", "p_looppre"}
 
 \* a text = <nowiki> sections (their contents, in order) followed by one segment;
@@ -102,21 +111,23 @@ VARIABLES
   ret,         \* observable result of the last call (to_return / create_strip_marker)
   last,        \* name of the last call
   ghost,       \* kind -> sequence of [title, section, subsection] current at emission (history)
-  markers      \* strip markers issued on this page: sequence of [node, content, num] (history)
+  markers,     \* strip markers issued on this page: sequence of [node, content, num] (history)
+  pos          \* declarative reference: [section, subsection] current by the documented meaning of the calls
 
-svars == <<title, section, subsection, lists, path, cookies, smc, ret, last, ghost, markers>>
+svars == <<title, section, subsection, lists, path, cookies, smc, ret, last, ghost, markers, pos>>
 
 NoLens == [k \in Kinds |-> 0]
 NoRet == [keys |-> {}, lens |-> NoLens, node |-> "", num |-> 0]
 EmptyLists == [k \in Kinds |-> <<>>]
 
-Fresh(t, s, u, ls, p, ck, m, r, la, g, mk) ==
+NoPos == [section |-> None, subsection |-> None]
+Fresh(t, s, u, ls, p, ck, m, r, la, g, mk, ps) ==
   /\ t = None /\ s = None /\ u = None /\ ls = EmptyLists /\ p = <<>> /\ ck = <<>> /\ m = {}
-  /\ r = NoRet /\ la = "init" /\ g = EmptyLists /\ mk = <<>>
+  /\ r = NoRet /\ la = "init" /\ g = EmptyLists /\ mk = <<>> /\ ps = NoPos
 
-Init == Fresh(title, section, subsection, lists, path, cookies, smc, ret, last, ghost, markers)
+Init == Fresh(title, section, subsection, lists, path, cookies, smc, ret, last, ghost, markers, pos)
 \* a new context (used by trace validation between recorded sessions)
-Reset == Fresh(title', section', subsection', lists', path', cookies', smc', ret', last', ghost', markers')
+Reset == Fresh(title', section', subsection', lists', path', cookies', smc', ret', last', ghost', markers', pos')
 
 (* ---------------- messages ---------------- *)
 StampT(t) == IF t = None \/ t = "" THEN "ERROR_TITLE" ELSE t     \* self.title or "ERROR_TITLE"
@@ -126,7 +137,8 @@ Record(kind, msg, trace, sortid, p) ==
   [msg |-> msg, trace |-> trace, title |-> StampT(title),
    section |-> StampS(IF "WarningSectionFromSubsection" \in Dev /\ kind = "warning" THEN subsection ELSE section),
    subsection |-> StampS(subsection), called_from |-> sortid, path |-> p]
-Ctx == [title |-> title, section |-> section, subsection |-> subsection]
+\* what a message recorded now has to be attributed to (the declarative side)
+Ctx == [title |-> title, section |-> pos.section, subsection |-> pos.subsection]
 
 (* ---------------- cookie table: _save_value ---------------- *)
 HasCookie(ck, key) == \E i \in 1..Len(ck) : ck[i] = key
@@ -163,22 +175,38 @@ StripStep(S, node, content, collide) ==
 (* ------------------------------------------------------------------ *)
 (* actions: one per public call                                        *)
 (* ------------------------------------------------------------------ *)
+\* Re-announcements: a call whose argument equals the value that is current already
+\* (start_page(T) on page T, start_section(S) in section S, start_section(None) without a
+\* section, start_subsection(U) in subsection U).  By the documentation such a call means
+\* what any other call of the function means; "nothing changes, so nothing to do" is the
+\* class of shortcut the deviations Same*Shortcut model.
+SamePage(t) == t = title
+SameSection(s) == s = section
+SameSubsection(u) == u = subsection
+
 StartPage(t) ==
-  /\ title' = t
-  /\ lists' = [k \in Kinds |-> IF "ListsNotClearedOnStartPage" \in Dev /\ k = "note" THEN lists[k] ELSE <<>>]
-  /\ ghost' = EmptyLists
-  /\ section' = None /\ subsection' = None
-  /\ cookies' = <<>> /\ path' = <<t>> /\ smc' = {} /\ markers' = <<>>
+  /\ pos' = NoPos
   /\ ret' = NoRet /\ last' = "start_page"
+  /\ IF "SamePageShortcut" \in Dev /\ SamePage(t)
+     THEN UNCHANGED <<title, lists, ghost, section, subsection, cookies, path, smc, markers>>
+     ELSE /\ title' = t
+          /\ lists' = [k \in Kinds |-> IF "ListsNotClearedOnStartPage" \in Dev /\ k = "note" THEN lists[k] ELSE <<>>]
+          /\ ghost' = EmptyLists
+          /\ section' = None /\ subsection' = None
+          /\ cookies' = <<>> /\ path' = <<t>> /\ smc' = {} /\ markers' = <<>>
 
 StartSection(s) ==
-  /\ section' = s
-  /\ subsection' = IF "SubsectionKeptOnStartSection" \in Dev THEN subsection ELSE None
+  /\ pos' = [section |-> s, subsection |-> None]
+  /\ IF "SameSectionShortcut" \in Dev /\ SameSection(s)
+     THEN UNCHANGED <<section, subsection>>
+     ELSE /\ section' = s
+          /\ subsection' = IF "SubsectionKeptOnStartSection" \in Dev THEN subsection ELSE None
   /\ ret' = NoRet /\ last' = "start_section"
   /\ UNCHANGED <<title, lists, ghost, path, cookies, smc, markers>>
 
 StartSubsection(s) ==
-  /\ subsection' = s
+  /\ pos' = [pos EXCEPT !.subsection = s]
+  /\ subsection' = IF "SubsectionNamedLikeSectionIgnored" \in Dev /\ s = section /\ s # None THEN subsection ELSE s
   /\ ret' = NoRet /\ last' = "start_subsection"
   /\ UNCHANGED <<title, section, lists, ghost, path, cookies, smc, markers>>
 
@@ -186,14 +214,14 @@ Emit(kind, msg, trace, sortid) ==
   /\ lists' = [lists EXCEPT ![kind] = Append(@, Record(kind, msg, trace, sortid, path))]
   /\ ghost' = [ghost EXCEPT ![kind] = Append(@, Ctx)]
   /\ ret' = NoRet /\ last' = "emit"
-  /\ UNCHANGED <<title, section, subsection, path, cookies, smc, markers>>
+  /\ UNCHANGED <<title, section, subsection, path, cookies, smc, markers, pos>>
 
 RunText(t, name) ==
   /\ title # None              \* expand()/parse() assert that start_page has been called
   /\ \E st \in {RunOps(TextOps(t), 1, [path |-> path, cookies |-> cookies, lists |-> lists, ghost |-> ghost])} :
        /\ path' = st.path /\ cookies' = st.cookies /\ lists' = st.lists /\ ghost' = st.ghost
   /\ ret' = NoRet /\ last' = name
-  /\ UNCHANGED <<title, section, subsection, smc, markers>>
+  /\ UNCHANGED <<title, section, subsection, smc, markers, pos>>
 
 Expand(t) == t.seg \in ExpandSegs /\ RunText(t, "expand")
 Parse(t) == t.seg \in ParseSegs /\ RunText(t, "parse")
@@ -201,7 +229,7 @@ Parse(t) == t.seg \in ParseSegs /\ RunText(t, "parse")
 ToReturn ==
   /\ ret' = [keys |-> ReturnKeys, lens |-> [k \in Kinds |-> Len(lists[k])], node |-> "", num |-> 0]
   /\ last' = "to_return"
-  /\ UNCHANGED <<title, section, subsection, lists, ghost, path, cookies, smc, markers>>
+  /\ UNCHANGED <<title, section, subsection, lists, ghost, path, cookies, smc, markers, pos>>
 
 StripMarker(node, content) ==
   /\ \E r \in {StripStep(smc, node, content, "StripCounterKeyCollision" \in Dev)} :
@@ -209,7 +237,7 @@ StripMarker(node, content) ==
        /\ ret' = [keys |-> {}, lens |-> NoLens, node |-> node, num |-> r.num]
        /\ markers' = Append(markers, [node |-> node, content |-> content, num |-> r.num])
   /\ last' = "strip_marker"
-  /\ UNCHANGED <<title, section, subsection, lists, ghost, path, cookies>>
+  /\ UNCHANGED <<title, section, subsection, lists, ghost, path, cookies, pos>>
 
 (* ------------------------------------------------------------------ *)
 (* properties                                                         *)
@@ -221,6 +249,7 @@ IsMsg(m) == /\ DOMAIN m = DocKeys
             /\ m.path \in Seq(STRING)
 TypeOK ==
   /\ title \in STRING /\ section \in STRING /\ subsection \in STRING
+  /\ pos.section \in STRING /\ pos.subsection \in STRING
   /\ DOMAIN lists = Kinds /\ DOMAIN ghost = Kinds
   /\ \A k \in Kinds : \A i \in 1..Len(lists[k]) : IsMsg(lists[k][i])
   /\ path \in Seq(STRING) /\ cookies \in Seq(STRING)
@@ -228,7 +257,17 @@ TypeOK ==
   /\ ret.keys \subseteq ReturnKeys /\ ret.num \in Nat
   /\ last \in {"init", "start_page", "start_section", "start_subsection", "emit", "expand", "parse", "to_return", "strip_marker"}
 
+\* the fields the messages are stamped from are the documented position
+PosIsState == pos.section = section /\ pos.subsection = subsection
+\* a re-announcement is a call like any other: right after it the state is what the documentation
+\* says about the call (in particular no subsection after start_section, whatever came before)
+AnnouncedPosition ==
+  /\ last = "start_page" => section = None /\ subsection = None
+  /\ last = "start_section" => section = pos.section /\ subsection = None
+  /\ last = "start_subsection" => section = pos.section /\ subsection = pos.subsection
+
 \* every message is stamped with the title / section (/ subsection) current when it was emitted
+\* (ghost: the documented position `pos` at emission)
 StampsTitleSection ==
   \A k \in Kinds :
     /\ Len(lists[k]) = Len(ghost[k])
